@@ -955,6 +955,9 @@ def _chunk(acc, cases):
                             tuple(p[0] for p in res['problems']))))
         acc.outcome(('rejected' if res['rejected'] else 'accepted') + ('' if res['converter'] else '/http-level'))
         acc.add('state-changing-accepted', 1 if (res['dirty'] and not res['rejected']) else 0)
+        if len(acc.samples) < 2:
+            acc.sample({'request': case_name(case), 'statuses': list(res['statuses']), 'rejected': res['rejected'],
+                        'reached_converter': res['converter'], 'problems': [p[0] for p in res['problems']]})
         seen = set()
         for kind, detail in res['problems']:
             key = f'{kind}/{case.get("req", "-")}/{mut_class(case)}'
